@@ -258,6 +258,10 @@ func (s *Segment) DocsMatchingTerms(terms []segment.Term) (*roaring.Bitmap, erro
 				}
 				lastField = thisField
 			}
+			if dict == nil {
+				// unknown field: contributes nothing
+				continue
+			}
 			term := terms[i]
 			postingsList := emptyPostingsList
 			postingsList, err = dict.postingsList(term.Term(), nil, postingsList)
